@@ -29,6 +29,10 @@ def run(ctx):
             for ops in seqs[:per]:
                 n += 1
                 coros.append(diskrun.run_history(ctx, tree, kind, ops, n, random.Random(ctx.seed * 100003 + n), stop='clean'))
+            # two cache_dirs of the kind: the first takes only small objects (none / some of the history's objects)
+            for j, ops in enumerate(seqs[per:per + (per if ctx.thorough else 3)]):
+                n += 1
+                coros.append(diskrun.run_history(ctx, tree, kind, ops, n, random.Random(ctx.seed * 100003 + n), stop='clean', first_max=(5000, 15000, 30000)[j % 3]))
         return await escen.gather_limited(coros, limit=6)
     out = asyncio.run(main())
     rej = escen.validate(ctx, os.path.join(SPEC, 'Trace_Restart.tla'), os.path.join(SPEC, 'Trace_Restart.cfg'), [{'ev': diskrun.fill(o['ev'])} for o in out], 'restart')
@@ -36,12 +40,13 @@ def run(ctx):
     for i in rej[:5]:
         o = out[i]
         ctx.violation('after a clean restart (%s) a completed entry is not served from the cache as stored: ops=%s events=%s' % (o['kind'], o['ops'], json.dumps(o['ev'])[:700]),
-                      {'kind': 'restart', 'class': {'store': o['kind']}, 'scenario': o})
+                      {'kind': 'restart', 'class': {'store': o['kind'], 'two_cache_dirs': o.get('first_max') is not None}, 'scenario': o})
     ctx.cov['impl_distinct'] = (unit_cov.get('impl_distinct', 0) if isinstance(unit_cov.get('impl_distinct', 0), int) else 0) + len({json.dumps([o['kind'], o['ops'], o['sizes']], sort_keys=True) for o in out})
     ctx.cov['hits_after_restart'] = sum(1 for o in out for e in o['ev'] if e['e'] == 'After' and not e['contacted'] and e['hv'] >= 0)
+    ctx.cov['histories_on_two_cache_dirs'] = sum(1 for o in out if o.get('first_max') is not None)
     ctx.cov['by_store'] = {k: sum(1 for o in out if o['kind'] == k) for k in kinds}
     for o in out[:2]:
         ctx.sample({'store': o['kind'], 'ops': o['ops'], 'sizes': o['sizes'], 'events': o['ev']})
-    ctx.cov['rule'] = (str(unit_cov.get('rule', '')) + ' || E level: histories = all words of length 4 over {store, overwrite, purge} x {a, b} (RestartScen.tla); sampled histories realised on a fresh squid with a rock / ufs / aufs cache_dir '
+    ctx.cov['rule'] = (str(unit_cov.get('rule', '')) + ' || E level: histories = all words of length 4 over {store, overwrite, purge} x {a, b} (RestartScen.tla); sampled histories realised on a fresh squid with a rock / ufs / aufs cache_dir, or two of them with the first limited to small objects, '
                        '(objects larger than the memory-cache limit), SIGTERM, restart, rebuild awaited, every key requested again; TLC validates against Restart.tla (phase clean).')
     ctx.assumptions += ['cache_dir 24 MB for < 300 KB of objects: eviction is excluded by sizing', 'diskd is not exercised']
